@@ -323,6 +323,11 @@ fn case<B: Fld, E: FieldElement<BaseField = B>, H: ElementHasher<BaseField = B>>
                     claimed[p] += E::ONE;
                 }
             }
+            // the two alterations can cancel (+(-1) then +1 on the same position)
+            if pos.iter().all(|&p| claimed[p] == fvals[p]) {
+                st.count("skipped.claimed_evaluations_equal_the_committed_ones");
+                return;
+            }
             st.count(&format!("claimed_mismatch.altered_index_{}", if which == 0 { "first" } else if which == pos.len() - 1 { "last" } else { "middle" }));
             verdict(st, "claimed evaluation differs from the committed first layer", inst.proof, inst.commitments, &claimed, &pos, n - 1, None);
         },
